@@ -240,7 +240,8 @@ Definition call_preamble (s : psec) : res (option call) :=
   end.
 Definition call_meta (s : msec) : res (option call) :=
   if is_nil (m_content s) then Ok None else
-  let o := remap "meta" (m_opts s) in
+  (* _get_options: line_endings is never passed on for metadata sections (write_meta has no such parameter) *)
+  let o := remap "meta" (assoc_del beq (B "line_endings") (m_opts s)) in
   if negb (only_keys o ["encoding"; "meta_format"]) then Err EType
   else Ok (Some (WriteMeta (WDict (JObj (m_content s))) (kw o "encoding") (kw_opt o "meta_format"))).
 Definition call_diff (s : dsec) : res (option call) :=
